@@ -15,7 +15,7 @@ def run(tier, seed):
                            "disconnect_send_fails, disconnect_recv_drains_then_fails, no_stranded_waiter, unblocked_waiter_completes, abstract_refinement, no_panic; "
                            "false for the code (witness + partial): try_send/send report Full/block while a slot is reserved for a queued sender (F21), "
                            "try_recv on a rendezvous channel blocks until the hand-off, endpoint drops are skipped while any task is panicking",
-                           profiles=["chan", "chan_dl", "stdmix", "scope"], per_quick=120, lemma_prefixes=("Chan",))
+                           profiles=["chan_shape", "chan", "chan_dl", "stdmix", "scope"], per_quick=120, lemma_prefixes=("Chan",))
 
 
 def replay(path):
